@@ -467,6 +467,63 @@ def run_shared_event(version):
     return viol
 
 
+def run_handover(version, pair):
+    """Operation A has seen its matching status event BEFORE the response to its own command and keeps waiting for that response;
+    meanwhile operation B -- waiting for the same status -- is started (its command queues behind A's).  A's response arrives, A
+    ends.  Then B's command is accepted and B's event arrives: B must observe it (whatever A tidied up when it left)."""
+    viol = []
+    opa, opb = pair
+    a = Ctx(version, opa)
+    t = a.t
+    label = f"handover v{version} {opa} -> {opb}"
+    try:
+        ta = start_op(a)
+        seq_a, cmd_a = a.last_request()
+        a.rx(a.frame("stackStatusHandler", [a.status(MATCH[opa])], a.answered, callback=True))
+        if ta.done():
+            return [f"{label}: the first operation ended ({outcome(ta)}) before its command was answered"]
+        n_sent = len(a.gw.sent)
+        a.op = opb
+        if opb == "ensure":
+            tb = a.loop.create_task(a.app._ensure_network_running())
+        elif opb == "form":
+            tb = a.loop.create_task(a.ezsp.formNetwork(gv.one(t.EmberNetworkParameters, "mid")))
+        else:
+            tb = a.loop.create_task(a.ezsp.leaveNetwork())
+        a.loop.settle()
+        a.rx(a.frame(cmd_a, [a.status("ok")], seq_a))
+        a.answered = seq_a
+        if not ta.done() or outcome(ta) != ("ok",):
+            viol.append(f"{label}: the first operation (event before response) ended with {outcome(ta) if ta.done() else 'pending'}")
+        # B's command(s) are on their way now
+        for _ in range(3):
+            if len(a.gw.sent) <= n_sent:
+                break
+            seq, cmd = a.last_request()
+            n_sent = len(a.gw.sent)
+            if cmd == "networkState":
+                a.rx(a.frame("networkState", [t.EmberNetworkStatus.NO_NETWORK], seq))
+            else:
+                a.rx(a.frame(cmd, [a.status("ok")], seq))
+            a.answered = seq
+        a.rx(a.frame("stackStatusHandler", [a.status(MATCH[opb])], a.answered, callback=True))
+        if not tb.done():
+            viol.append(f"{label}: the second operation is still waiting although its command was accepted and the matching stack status arrived after it")
+            tb.cancel()
+            a.loop.settle()
+        elif outcome(tb) != ("ok",):
+            viol.append(f"{label}: the second operation ended with {outcome(tb)}")
+        if not ta.done():
+            ta.cancel()
+            a.loop.settle()
+        lk = leaks(a)
+        if lk:
+            viol.append(f"{label}: {lk}")
+    finally:
+        a.close()
+    return viol
+
+
 def outcome(task):
     if task.cancelled():
         return ("cancelled",)
@@ -562,6 +619,11 @@ def main(tier: str) -> int:
         n_iso += 2
         for msg in run_shared_event(v):
             rep.add_violation(vkey("shared", msg), msg, {"world": "c17", "kind": "shared", "version": v, "op": "form"})
+    for v in versions:
+        for pair in (("form", "ensure"), ("ensure", "form"), ("form", "form"), ("leave", "leave")):
+            n_iso += 1
+            for msg in run_handover(v, pair):
+                rep.add_violation(vkey("handover", msg), msg, {"world": "c17", "kind": "handover", "version": v, "pair": list(pair), "op": pair[0]})
     total += n_iso
     if total < 5000 or len(sigs) < 30:
         raise explore.InternalError(f"C17 vacuous: sequences={total} signatures={len(sigs)}")
@@ -587,8 +649,8 @@ def main(tier: str) -> int:
 
 
 def replay(data) -> int:
-    if data.get("kind") == "shared":
-        v = run_shared_event(data["version"])
+    if data.get("kind") in ("shared", "handover"):
+        v = run_shared_event(data["version"]) if data.get("kind") != "handover" else run_handover(data["version"], tuple(data["pair"]))
         for m in v:
             print("VIOLATION:", m)
         return 1 if v else 0
